@@ -7,6 +7,7 @@ import (
 	"os"
 	"reflect"
 	"strings"
+	"syscall"
 	"testing"
 	"time"
 
@@ -377,6 +378,77 @@ func oracle(c *Case) (facts, error) {
 		} else if err := fix.CheckRows(got, nil, want); err != nil {
 			return f, fmt.Errorf("bound query %+q [%+q] via grpc before the restart: %v", text, val, err)
 		}
+		// a flood of rejected queries through the driver: what a failed call
+		// holds (connections, descriptors) has to be given back
+		{
+			badText := "no_such_column_zz = $1"
+			fire := func(n int) error {
+				for i := 0; i < n; i++ {
+					err := fix.Safe(func() error {
+						r, e := gdb.Query(badText, val)
+						if e == nil {
+							r.Close()
+							return nil
+						}
+						return e
+					})
+					if err == nil {
+						return fmt.Errorf("query %+q via grpc on an unknown column returned rows", badText)
+					}
+					if fix.IsPanic(err) {
+						return err
+					}
+				}
+				return nil
+			}
+			if err := fire(30); err != nil {
+				return f, err
+			}
+			before := fix.FDCount(0)
+			if err := fire(300); err != nil {
+				return f, err
+			}
+			if after := fix.FDCount(0); before >= 0 && after > before+40 {
+				return f, fmt.Errorf("300 rejected queries through one grpc database handle left %d more open descriptors in the client process (%d -> %d): what a failed call holds is not given back", after-before, before, after)
+			}
+			evid.Note("driver_rejected_query_floods", 1)
+			if got, err := ask(); err != nil {
+				return f, fmt.Errorf("bound query %+q [%+q] via grpc after 330 rejected queries: %v", text, val, err)
+			} else if err := fix.CheckRows(got, nil, want); err != nil {
+				return f, fmt.Errorf("bound query %+q [%+q] via grpc after 330 rejected queries: %v", text, val, err)
+			}
+		}
+		// a termination request arrives while a long batch is being answered:
+		// the call may fail, but a response that does arrive has to be right
+		{
+			heavy := &pb.QueryRequest{}
+			hq := fix.PBQuery(model.Eq(col, val), nil, 0)
+			for i := 0; i < 40000; i++ {
+				heavy.Queries = append(heavy.Queries, hq)
+			}
+			type hres struct {
+				resp *pb.QueryResponse
+				err  error
+			}
+			hd := make(chan hres, 1)
+			go func() { r, e := srv.Query(heavy, 60*time.Second); hd <- hres{r, e} }()
+			time.Sleep(time.Duration(10+len(rows)%50) * time.Millisecond)
+			srv.Cmd.Process.Signal(syscall.SIGTERM)
+			r := <-hd
+			if r.err == nil {
+				evid.Note("batches_answered_despite_termination_request", 1)
+				if len(r.resp.Results) != len(heavy.Queries) {
+					return f, fmt.Errorf("batch of %d queries overlapping a termination request (SIGTERM): response holds %d results", len(heavy.Queries), len(r.resp.Results))
+				}
+				for i, res := range r.resp.Results {
+					if res.TotalCount != uint64(want.Count) {
+						return f, fmt.Errorf("batch of %d x (%s = %+q) overlapping a termination request (SIGTERM): the call succeeded but result %d has count %d, the library says %d", len(heavy.Queries), col, val, i, res.TotalCount, want.Count)
+					}
+				}
+			} else {
+				evid.Note("batches_failed_by_termination_request", 1)
+			}
+		}
 		addr := srv.Addr
 		srv.Stop()
 		type res struct {
@@ -575,7 +647,7 @@ func drawCase(t *rapid.T, maxBatches int) *Case {
 	for i := 0; i < nd; i++ {
 		c.DriverQs = append(c.DriverQs, drawQ(t, pool, c.Data.Recipe != nil, rapid.IntRange(0, 5).Draw(t, "dinv") == 0))
 	}
-	c.Restart = rapid.IntRange(0, 9).Draw(t, "restart") == 0
+	c.Restart = rapid.IntRange(0, 5).Draw(t, "restart") == 0
 	if nd > 0 && rapid.IntRange(0, 5).Draw(t, "churn?") == 0 {
 		c.Churn = rapid.SampledFrom([]int{20, 60, 150}).Draw(t, "churn")
 	}
